@@ -184,6 +184,7 @@ fn exec_t<T: Sc, F: Factory<T>>(sc: &Scenario) -> RunReport {
     if let Some(p) = &r.build_panic {
         rep.violate(sc, "PANIC", &format!("build@{}", panic_site(p)), p.clone());
     }
+    expect_built(sc, &mut rep, &r.build, r.build_panic.is_some(), "");
     let w = &r.world;
     let (n, s) = (w.n(), w.s());
     let yw = w.weighted_y();
